@@ -25,6 +25,55 @@ CHECKS = {
     ),
 }
 
+CHECKS.update({
+    "C01": dict(
+        text="Lean theorem decode_encode: for every well-formed message m (9 operations, any controls, any filter tree, any field contents), any "
+             "trailing bytes, any set of registered custom types and any recursion budget above the filter depth, "
+             "decMsg (encMsg m ++ rest) = (fillRaw m, rest); reencode: encMsg (fillRaw m) = encMsg m. The model (encMsg/decMsg, faithful to every "
+             "_pack_inner/_unpack_* incl. error classes) is tied to the code by correspondence on ≈6k enc/dec requests and the same messages are "
+             "round-tripped directly on the implementation (field-by-field, ==, exact consumption, re-pack).",
+        technique="Lean 4 proof (structural induction on messages/filters, fuel-sufficiency of the reader loops) + correspondence",
+        ref="DESIGN.md §4 C01",
+    ),
+    "C03": dict(
+        text="Lean theorem strict_decode: an independent strict decoder written from the RFC 4511 ASN.1 module (Spec/Tlv.lean, Spec/Rfc4511.lean; "
+             "exact class/number/form per element, definite lengths, TRUE=FF, absent defaults, minimal integers, component order, nothing extra) "
+             "maps encMsg m back to m for every well-formed message other than UnbindRequest (known finding F-C03, proved as "
+             "unbind_known_finding); the executable decoder is additionally run on the bytes the implementation produces.",
+        technique="Lean 4 proof against an independent executable specification + correspondence",
+        ref="DESIGN.md §4 C03",
+    ),
+    "C08": dict(
+        text="Lean theorems over the step function of the session model: refinement of the documented automaton for every reachable session "
+             "and every call (events computed from call and outcome only), lifted to histories; CLOSED absorbing (no bytes, sends rejected, "
+             "input refused); bind gating on client and server; BINDING restricts sends. The one deviation (F-C08c, pinned by the repo's tests) "
+             "is carved out explicitly and proved as known_deviation. Model tied to the code by replaying generated joint histories.",
+        technique="Lean 4 proof (refinement + invariants by induction on reachability) + correspondence on generated histories",
+        ref="DESIGN.md §4 C08",
+    ),
+    "C09": dict(
+        text="Lean theorems: ids issued over any client history are first, first+1, … (refused calls consume none); returned id = id in the emitted "
+             "bytes; searches ⊆ outstanding on every reachable client; a message is accepted iff it is a response whose id is outstanding; "
+             "lifetime of searches vs other operations; a rejected message closes the session.",
+        technique="Lean 4 proof (invariants over reachable states) + correspondence on generated histories",
+        ref="DESIGN.md §4 C09",
+    ),
+    "C10": dict(
+        text="Lean theorems: a refused send call leaves the outgoing bytes unchanged and fails with the library error; a server response is "
+             "accepted only for an outstanding id; a final response retires it so any second response is rejected with no wire effect; "
+             "entries/references keep it open.",
+        technique="Lean 4 proof (case analysis of the step function) + correspondence on generated histories",
+        ref="DESIGN.md §4 C10",
+    ),
+    "C12": dict(
+        text="Lean theorem queue: over any history from any session, all drained bytes ++ pending bytes = initially pending ++ encodings of exactly "
+             "the accepted sends in call order, for every drain amount (None, 0, partial, oversized, negative via Python slice semantics); drain "
+             "changes nothing but the pending bytes.",
+        technique="Lean 4 proof (one-step FIFO lemma + induction over the history) + correspondence on generated histories",
+        ref="DESIGN.md §4 C12",
+    ),
+})
+
 NOT_YET = {
 }
 
